@@ -15,6 +15,7 @@ EXPLANATION = (
     "Also decided (rounds 4/5, mutation map): no serializer dereferences the kwargs slot the proxy leaves None; marshal's pre-conversion recurses into containers with a per-path cycle guard; the byte normaliser returns the content of exactly the view it was given; the client refuses a reply encoded by another serializer before decoding it. "
     "documented type mapping, idempotence."
     "Also decided (round 9): A batch member's result is collected exactly as the method returned it. "
+    "Also decided (round 10): The marshal pre-conversion's cycle record is a parameter passed down by every recursive call (not state on the serializer); the oneway thread hands user keyword arguments over so that none can collide with a parameter of the thread's own function; no encoder is called with an option that drops or rewrites what the format cannot express (skipkeys, use_bin_type=False, unicode_errors). "
     "Not decided: that serpent/json/marshal/msgpack/zlib return what was put in over the unbounded value domain, the "
 )
 
@@ -507,6 +508,11 @@ def run(ctx, R, tier):
             conv.loc(raisers[0]) if raisers else conv.loc(), why_g + ": after one conversion that failed half-way the leftover record makes later values that reuse a container fail as 'circular'")
     rec = [c for c in walk_no_nested(conv.node) if isinstance(c, ast.Call) and isinstance(c.func, ast.Attribute) and c.func.attr == conv.name
            and isinstance(c.func.value, ast.Name) and c.func.value.id == conv.self_name]
+    unguided = [c for c in rec if not any(isinstance(x, ast.Name) and x.id in guard_params for a in list(c.args[1:]) + [k.value for k in c.keywords] for x in ast.walk(a))]
+    R.check(not unguided or not guard_params, "C01-R10", "convert_obj_into_marshallable|every-recursive-call-passes-the-path-down", "each recursive call hands the containers on the current path to the next level",
+            conv.loc(unguided[0]) if unguided else conv.loc(),
+            "`%s` starts the members' conversion with an empty record: a container that contains itself is never recognised - the conversion recurses until RecursionError instead of "
+            "refusing the value with the serializer's own error" % (unparse(unguided[0], 80) if unguided else ""))
     R.check(len(rec) >= 2, "C01-R10", "convert_obj_into_marshallable|recurses-into-members", "members of sequences/sets and values of dicts are converted recursively (%d recursive calls)" % len(rec),
             conv.loc(), "the conversion does not call itself for the members of containers")
 
